@@ -274,7 +274,9 @@ class HTTP(BaseComponent):
             sp = self.protocol
 
             if rp[0] != sp[0]:
-                # the major HTTP version differs
+                # the major HTTP version differs: answer in our own version,
+                # so that the headers (Connection: close) mean what they say
+                res.protocol = 'HTTP/{:d}.{:d}'.format(*sp)
                 return self.fire(httperror(req, res, 505))
 
             res.protocol = 'HTTP/{:d}.{:d}'.format(*min(rp, sp))
